@@ -3,6 +3,7 @@ C05 — Random streams are a pure, contract-respecting function of the seed.
 Property theorems only (helper lemmas live in `Lemmas/C05.lean`).
 -/
 import CobaVerif.Lemmas.C05
+import CobaVerif.Lemmas.C05Real
 import CobaVerif.Generated.LcgConsts
 
 namespace Coba.C05
@@ -96,6 +97,22 @@ state after normalisation is what Python's `(a*seed+c) & (m-1)` computes from th
 theorem seed_norm_int (seed : Int) :
     ((next (normInt seed) : Nat) : Int) = ((A : Int) * seed + (C : Int)) % (M : Int) :=
   seed_norm_int' seed
+
+/-- gauss is finite, with the transcendental functions modelled by their real counterparts:
+for every pair of uniforms Box–Muller can be fed (first numerator in [1,2^30) by
+`gauss_log_arg_pos`) the value is bounded by sqrt(60 ln 2) ≈ 6.45 -/
+theorem gauss_finite_real (k1 k2 : Nat) (isCos : Bool) (h1 : 0 < k1) (h2 : k1 < M) :
+    |boxMuller k1 k2 isCos| ≤ Real.sqrt (60 * Real.log 2) := boxMuller_bound' k1 k2 isCos h1 h2
+
+/-- `randint` under the standard model of floating-point arithmetic (relative error ≤ 2^-53 on
+the int→float conversion of the range and on the product): the product never reaches the
+range, for every range, state and admissible rounding error — so `floor` stays ≤ range-1 -/
+theorem randint_float_model (n : Rat) (s : Nat) (e1 e2 : Rat) (hn : 0 < n)
+    (h1 : |e1| ≤ 1 / 2 ^ 53) (h2 : |e2| ≤ 1 / 2 ^ 53) :
+    0 ≤ n * (1 + e1) * u s * (1 + e2) ∧ n * (1 + e1) * u s * (1 + e2) < n :=
+  randint_float_model' n s e1 e2 hn h1 h2
+
+example : (0 : Nat) < 5 ∧ 5 < M := by decide
 
 /-- IEEE-754 witness for the recorded finding C05-F3: with `min = 2^20-2^-20`, `max = 2^20`
 and the largest uniform `(2^30-1)/2^30` the double result of `min+(max-min)*u` *is* `max`.
